@@ -320,11 +320,42 @@ func genC14(g *sim.Stream, f *sim.Stream) *c14Prog {
 	}
 	nops := g.Range(3, 14)
 	for k := 0; k < nops; k++ {
-		kind := g.Intn(9)
-		if len(binds) == 0 && kind != 8 {
+		kind := g.Intn(10)
+		if len(binds) == 0 && kind != 8 && kind != 9 {
 			kind = 0
 		}
 		switch kind {
+		case 9: // an import inside a function, under the name of a global module binding
+			if len(mods) < 2 {
+				i := g.Intn(len(mods))
+				nalias++
+				st, bind := importStmt(mods[i], g.Intn(5), fmt.Sprintf("al%d", nalias))
+				b.WriteString(st + "\n")
+				mm.imp(mods, i)
+				binds = append(binds, binding{bind, i, "module"})
+				break
+			}
+			i := g.Intn(len(mods))
+			j := (i + 1 + g.Intn(len(mods)-1)) % len(mods)
+			nalias++
+			name := fmt.Sprintf("shx%d", nalias)
+			fmt.Fprintf(&b, "import %q as %s\n", mods[i].Path, name)
+			mm.imp(mods, i)
+			binds = append(binds, binding{name, i, "module"})
+			// the function's own import binds a LOCAL of the same name
+			if g.Bool() {
+				fmt.Fprintf(&b, "func fsh%d() { import %q as %s; return %s.get() }\n", nalias, mods[j].Path, name, name)
+			} else if strings.Contains(mods[j].Path, "/") {
+				dj := strings.LastIndexByte(mods[j].Path, '/')
+				fmt.Fprintf(&b, "func fsh%d() { from %q import %s as %s; return %s.get() }\n", nalias, mods[j].Path[:dj], mods[j].last(), name, name)
+			} else {
+				fmt.Fprintf(&b, "func fsh%d() { import %s as %s; return %s.get() }\n", nalias, mods[j].Path, name, name)
+			}
+			fmt.Fprintf(&b, "obs.append(fsh%d())\n", nalias)
+			mm.imp(mods, j)
+			obs(fmt.Sprint(mm.state[j]))
+			fmt.Fprintf(&b, "obs.append(%s.get())\n", name)
+			obs(fmt.Sprint(mm.state[i]))
 		case 8: // one from-import statement that brings in two modules of a directory
 			done := false
 			for i := range mods {
